@@ -921,10 +921,12 @@ pub fn suffix_set(fam: Family) -> Vec<Vec<u8>> {
 }
 
 pub fn c07(ctx: &Ctx) {
-    ctx.set_rule("every value of U_val ∪ U_size ∪ U_field ∪ U_thresh and EVERY cut position 0..len of its encoding (boundary positions only for encodings > 600 bytes): blocking on the prefix, async and poll on a transport that ends there (whole and byte-wise for short ones) must report incomplete; U_small x {all 256 one-byte suffixes, B16^2, every U_tiny encoding, ff*8}: same packet, exact consumption; non-trivial = values with optional content");
+    ctx.set_rule("every value of U_val ∪ U_size ∪ U_field ∪ U_thresh and EVERY cut position 0..len of its encoding (boundary positions only for encodings > 600 bytes): blocking on the prefix, async and poll on a transport that ends there (whole and byte-wise for short ones) must report incomplete; every such value (encodings < 100,000 bytes) x the suffixes {00, c0 00, a PUBLISH, ff*8} and U_small x {all 256 one-byte suffixes, B16^2, every U_tiny encoding, ff*8}: same packet, exact consumption; non-trivial = values with optional content");
     fn fam<F: Fam>(ctx: &Ctx) {
         let (u, _) = universe(F::FAMILY, ctx);
-        for_items(&u, &|_, a| c07_item::<F>(ctx, a, None));
+        // every value of the universes with a short suffix list (values whose encoding stays below 100,000 bytes)
+        let few: Vec<Vec<u8>> = vec![vec![0x00], vec![0xC0, 0x00], vec![0x30, 0x03, 0x00, 0x01, 0x61], vec![0xFF; 8]];
+        for_items(&u, &|_, a| c07_item::<F>(ctx, a, if approx_size(a) < 90_000 { Some(&few) } else { None }));
         let sfx = suffix_set(F::FAMILY);
         let small = u_small(F::FAMILY);
         ctx.count(&format!("{}_suffix_values", F::NAME), small.len() as u64);
